@@ -527,6 +527,9 @@ func vsLifeExec(sc vsLifeScn, ch vsChooser) (string, *vsSched) {
 	if r.c != nil {
 		closingV, procV, stV = r.c.keychain[closing], r.c.keychain[processing], r.c.state
 	}
+	if s.foreign > 0 {
+		s.line("G env foreign-hook-calls %d", s.foreign)
+	}
 	s.line("end status=%s steps=%d fdopen=%d unread=%d closing=%d processing=%d state=%d adds=%d dels=%d frees=%d parked=%s",
 		status, s.steps, fdOpen, r.unread(), closingV, procV, stV, r.fp.adds, r.fp.dels, r.fp.frees, s.parked())
 	if fdOpen == 1 {
